@@ -68,8 +68,15 @@ static bool emit_and_resolve(bool is_call, uint64_t target, uint64_t base, uint6
   if (KNOWN && near_known) {
     // base known and target within rel32 reach: no relocation at all
     V_ASSERT(c->_relocations._size == 0 && c->_address_table_section == nullptr, "known base and reachable target: nothing left to relocate");
+    if (!is_call && b[0] == 0xEB) {  // jmp short: the displacement is known at emit time and fits 8 bits
+      V_ASSERT(emitted == 2, "known base and very near target: jmp rel8");
+      *designated = base + kPos + 2 + uint64_t(sx<8>(b[1]));
+      if (!X64) *designated = uint64_t(uint32_t(*designated));
+      return true;
+    }
     V_ASSERT(emitted == 5 && b[0] == (is_call ? 0xE8 : 0xE9), "known base and reachable target: plain rel32 form");
     *designated = base + kPos + 5 + uint64_t(sx<32>(load_le(b + 1, 4)));
+    if (!X64) *designated = uint64_t(uint32_t(*designated));
     return true;
   }
   // a relocation was recorded (X64: with an address-table entry). Re-state the hand-over for the symbolic executor.
@@ -91,7 +98,13 @@ static bool emit_and_resolve(bool is_call, uint64_t target, uint64_t base, uint6
     V_CONCRETIZE(c->_address_table_entries._root, ent, "one address table entry (third arena object)");
     V_CONCRETIZE(ent->_tree_nodes[0], uintptr_t(0), "entry has no left child");
     V_CONCRETIZE(ent->_tree_nodes[1], uintptr_t(0), "entry has no right child");
-    V_ASSERT(ent->_address == target && ent->_slot == 0xFFFFFFFFu && tab->_virtual_size == 8 && tab->_alignment == 8 && tab->_section_id == 1, "entry holds the target, one slot reserved");
+    V_ASSERT(ent->_address == target, "entry holds the target");
+    V_CONCRETIZE(ent->_slot, 0xFFFFFFFFu, "entry has no slot yet");
+    V_CONCRETIZE(tab->_virtual_size, uint64_t(8), "one slot reserved");
+    V_CONCRETIZE(tab->_alignment, 8u, "address table is 8-byte aligned");
+    V_CONCRETIZE(tab->_section_id, 1u, "address table has id 1");
+    V_CONCRETIZE(tab->_buffer._size, size_t(0), "address table buffer is empty");
+    V_CONCRETIZE(sec(0)->_buffer._size, size_t(kPos + 6), "text holds the prefix, opcode and rel32");
     V_CONCRETIZE(tab->_buffer._data, static_cast<uint8_t*>(nullptr), "address table has no buffer yet");
     V_CONCRETIZE(tab->_buffer._capacity, size_t(0), "address table has no capacity yet");
     V_CONCRETIZE(tab->_buffer._flags, CodeBufferFlags::kNone, "address table buffer is not fixed");
@@ -134,5 +147,17 @@ static void known_base() {
   V_ASSERT(tb == want, "base assigned at relocation: the instruction designates the requested target");
   V_WITNESS("known-base-equals-relocated");
 }
-HARNESS h_known_base_x64() { known_base<true>(); }
+// 64-bit: the two runs in separate queries (each against the requested target, which gives the equality of the two)
+template<bool KNOWN>
+static void known_base_x64_half() {
+  bool is_call = nondet_bool();
+  uint64_t target = nondet_u64(), base = nondet_u64(), t = 0;
+  V_ASSUME(base != Globals::kNoBaseAddress);
+  bool ok = emit_and_resolve<true, KNOWN>(is_call, target, base, &t);
+  V_ASSERT(ok, "64-bit call or jmp to any absolute target can be placed at any base");
+  V_ASSERT(t == target, "64-bit: the instruction designates the requested target");
+  if (KNOWN) V_WITNESS("known-base-designates-target"); else V_WITNESS("relocated-designates-target");
+}
+HARNESS h_known_base_x64_known() { known_base_x64_half<true>(); }
+HARNESS h_known_base_x64_relocated() { known_base_x64_half<false>(); }
 HARNESS h_known_base_x86() { known_base<false>(); }
